@@ -4,7 +4,7 @@ from pyg_base._as_float import as_float
 from pyg_base._dict import Dict
 from pyg_base._eq import eq
 from pyg_base._zip import zipper, lens
-from pyg_base._types import is_str, is_strs, is_arr, is_df, is_dicts, is_int, is_ints, is_tuple, is_bools, is_nan, is_num
+from pyg_base._types import is_str, is_strs, is_arr, is_df, is_dicts, is_int, is_ints, is_tuple, is_bools, is_nan, is_num, is_float
 from pyg_base._tree import is_tree, tree_to_table
 from pyg_base._inspect import getargs
 from pyg_base._decorators import kwargs_support, try_none, try_back
@@ -198,6 +198,19 @@ def _value(value):
         return list(value) if isinstance(value, tuple) else as_list(value)
 
 
+def _nan(value):
+    """ is value a nan? (is_nan is also True for +/-inf) """
+    return is_float(value) and value != value
+
+
+def _in(v, values):
+    """
+    v in values, by value: a nan cell is found among values that hold a nan, whichever float objects these are 
+    (`in` checks identity first so np.nan in [np.nan] while float('nan') not in [np.nan])
+    """
+    return v in values or (_nan(v) and len([x for x in values if _nan(x)]) > 0)
+
+
 def _row_check(row, key, value):
     v = row[key]
     if value is None:
@@ -206,7 +219,7 @@ def _row_check(row, key, value):
         return is_nan(v)
     if isinstance(value, Pattern):
         return is_str(v) and value.search(v) is not None
-    return v in as_list(value)
+    return _in(v, as_list(value))
 
 
 def and_(filters):
@@ -518,7 +531,7 @@ class dictable(Dict):
                 res = res[[is_str(r) and value.search(r) is not None for r in res[key]]]                
             else:
                 value = as_list(value)
-                res = res[[r in value for r in res[key]]]
+                res = res[[_in(r, value) for r in res[key]]]
         if len(res) == 0:
             return type(self)([], self.keys())
         return res                
